@@ -72,3 +72,53 @@ def global_facade(ctx, what, n=36):
             break
     ctx.setdefault("xcheck", {})["global_facade_histories"] = len(pick)
     return res
+
+
+def borrow(ctx, other, what, select=None, n=30, seed_salt=7):
+    """Run up to `n` quick-tier cases of property `other` (filtered by `select`) through THAT property's
+    harness, model and judge; violations are reported under the borrowing property with `what` as the
+    reason why they matter to it.  Cases inside an open known-finding class of `other` are ignored."""
+    import importlib
+    vc = ctx["vc"]
+    mod = importlib.import_module("gen." + other.lower())
+    vc.coq_build(["Run/%s.vo" % other])
+    drv = vc.build_driver(other)
+    sub = {"pid": other, "tier": "quick", "seed": ctx["seed"], "drv": drv, "vc": vc, "known": ctx.get("known", {})}
+    if hasattr(mod, "prepare"):
+        mod.prepare(sub)
+    else:
+        sub["vh"] = vc.build_harness(other.lower())
+    rng = vc.Rng(ctx["seed"] * 1000 + seed_salt)
+    allc = list(mod.corpus()) if hasattr(mod, "corpus") else []
+    allc += list(mod.cases(rng, "quick"))
+    if select is not None:
+        allc = [c for c in allc if select(c)]
+    pick = allc[:: max(1, len(allc) // n)][:n] if allc else []
+    lines = [vc.show(c) for c in pick]
+    if hasattr(mod, "run_impl"):
+        impl = mod.run_impl(sub, pick, lines)
+    else:
+        impl = vc.run_lines([sub["vh"]], lines, timeout_per_batch=600)
+    ml = mod.model_lines(sub, pick, lines, impl) if hasattr(mod, "model_lines") else lines
+    model = vc.run_lines([drv], ml, timeout_per_batch=600, crash_marker="xmodelcrash")
+    res = []
+    for c, ln, il, mo in zip(pick, lines, impl, model):
+        try:
+            mv = vc.parse(mo)
+        except Exception:
+            raise vc.Broken("corr:%s/model-run" % other, "%s model failed on a borrowed case: %s" % (other, mo[:200]))
+        try:
+            iv = vc.parse(il)
+        except Exception:
+            iv = b"unparsable:" + il[:100].encode()
+        d = mod.compare(c, iv, mv) if hasattr(mod, "compare") else (None if iv == mv else "impl != model")
+        if d is None:
+            continue
+        kf = mod.known_finding(c, iv, mv) if hasattr(mod, "known_finding") else None
+        if kf is not None and ctx.get("known", {}).get(kf, {}).get("status") == "open":
+            continue
+        res.append(("%s (%s case): %s" % (what, other, d),
+                    {"case_line": ln, "run_with": "./check %s --replay <this file>" % other}))
+        break
+    ctx.setdefault("xcheck", {})["borrowed_%s_cases" % other] = len(pick)
+    return res
